@@ -331,6 +331,34 @@ fn concurrent(p: &Params) -> Program {
             };
             vec![tagger(1), tagger(2), load_cas(1)]
         }
+        // a tag CAS whose expected value goes stale in its stamp only, twice: two other threads
+        // re-store the very same pointer in two later epochs, one before each attempt
+        5 => {
+            // (the cell was written in the set-up epoch; the tagger is pinned one epoch later, so
+            // the first re-store carries its epoch and the second, after the one advance a pinned
+            // thread permits, the next one)
+            let restore = |advance: bool| {
+                body(move |c, w| {
+                    if advance {
+                        circ::verif::try_advance();
+                    }
+                    let x = c.clone_rc(w.rc[3].get());
+                    let g = c.pin();
+                    c.store(&w.roots[0], x, &g);
+                    c.unpin(g);
+                })
+            };
+            vec![
+                body(|c, w| {
+                    let g = c.pin();
+                    let s = c.load(&w.roots[0], &g);
+                    let _ = c.cas_tag(&w.roots[0], s, 1, &g);
+                    c.unpin(g);
+                }),
+                restore(false),
+                restore(true),
+            ]
+        }
         _ => vec![
             body(|c, w| {
                 let y = w.rc[1].take();
@@ -361,6 +389,7 @@ fn concurrent(p: &Params) -> Program {
             } else {
                 w.rc[2].put(c.new_node(3));
             }
+            w.rc[3].put(c.clone_rc(&x));
             let g = c.pin();
             c.store(&w.roots[0], x, &g);
             c.unpin(g);
